@@ -503,4 +503,54 @@ theorem src_open_part_file_eq_model (cfg : Cfg) (pf : Option Unit) (plan : Plan)
         excOf_isException, rmPart_eq, src_rm_part_raw, msys_stat, hcs, S_IMODE_reg hlt]
       tie_post [hp]
 
+/-! ## `setup`, `__enter__` -/
+
+theorem call_unlink_modesOk {plan : Plan} {m : M} (h : ModesOk m.fs) : ModesOk (call plan m .unlinkPart).2.fs := by
+  have hi : (call plan m .unlinkPart).2.fs.inodes = m.fs.inodes := by
+    have hexe : ∀ m0 : M, (exe m0 .unlinkPart).2.fs.inodes = m0.fs.inodes := by
+      intro m0; unfold exe
+      cases hs : m0.fs.step .unlinkPart with
+      | error e => rfl
+      | ok fs1 =>
+        simp only [FS.step, FS.unlinkPart] at hs
+        split at hs <;> simp at hs
+        subst hs; rfl
+    unfold call; split
+    · rfl
+    · exact hexe m
+    · rw [hexe, env_inodes]
+  intro i hin; rw [hi] at hin; exact h i hin
+
+set_option hygiene false in
+/-- after `tie_callee`: what the callee's tie theorem `hk` says about the three components -/
+macro "tie_use " hk:ident : tactic => `(tactic| (
+  simp only [TiePost, SameCfg] at $hk:ident
+  obtain ⟨h1, h2, h3, h4⟩ := $hk
+  subst h1 h2))
+
+@[simp] theorem excOf_eexist : excOf EEXIST = Exc.osError 17 := by decide
+
+set_option maxHeartbeats 1000000 in
+/-- **`AtomicSaver.setup`** as regenerated from the source = the model's `setup`: the refusal (`overwrite=False` and the
+    destination exists: `OSError(EEXIST)`, no call made), the removal of a stale part file with `overwrite_part`
+    (`os.path.lexists` is an uncounted probe), then `_open_part_file()` (through its own tie theorem) -/
+theorem src_setup_eq_model (cfg : Cfg) (pf : Option Unit) (plan : Plan) (m : M) (hm : ModesOk m.fs) :
+    TiePost cfg true (setup cfg plan m) (AtomicSaver.setup (msys plan) (conc cfg pf) (erase m)) := by
+  rw [setup_eq_openPartFileM]
+  have hk0 := src_open_part_file_eq_model cfg pf plan m hm
+  have hk1 := src_open_part_file_eq_model cfg pf plan (call plan m .unlinkPart).2 (call_unlink_modesOk hm)
+  cases hd : m.fs.dir.dest.isSome <;> cases ho : cfg.overwrite <;> cases hop : cfg.overwritePart <;>
+    cases hpp : m.fs.dir.part.isSome <;>
+    simp only [Bool.and_true, Bool.and_false, Bool.true_and, Bool.false_and, Bool.not_true, Bool.not_false, if_true, if_false, Bool.false_eq_true]
+  all_goals first
+    | (tie_eval [AtomicSaver.setup, AtomicSaver.setup.body, hd, ho, hop, hpp]; tie_post [hd, ho, hop, hpp]; done)
+    | (tie_eval [AtomicSaver.setup, AtomicSaver.setup.body, hd, ho, hop, hpp]
+       all_goals first
+         | (tie_callee; first | (clear hk1; tie_use hk0) | (clear hk0; tie_use hk1))
+         | skip
+       all_goals (try (generalize openPartFileM cfg plan _ = tie_m at *; rcases tie_m with ⟨_ | _, _⟩))
+       all_goals (try blk_eval [])
+       all_goals (simp [TiePost, finishMethod, Blk.result, SameCfg, liftR, hd, ho, hop, hpp, Exc.osError])
+       all_goals first | exact h3 | exact ⟨h3, h4 trivial rfl⟩)
+
 end C05
